@@ -310,6 +310,8 @@ R_PNFTP12 = [f"{_RP}.translated_history_invariants", f"{_RP}.getPNFTsByDenomId_r
 _RPQ = "Panacea.Refine.PnftQuery"
 _RAQ = "Panacea.Refine.AolQuery"
 R_AOLQ = [f"{_RA}.topicQuery_refines", f"{_RA}.writerQuery_refines", f"{_RA}.recordQuery_refines", f"{_RA}.itemQueries_nil"]
+_RPG = "Panacea.Refine.PnftGenesis"
+R_PNFTG = [f"{_RP}.exportGenesis_run", f"{_RP}.initGenesis_run", f"{_RP}.importPNFT_run"]
 REFINE = {
     "C18": ([_RC], R_COMPKEY),
     "C01": ([_RA, _RAQ], R_COMPKEY + R_AOL + R_AOLQ[2:3]),
@@ -323,6 +325,7 @@ REFINE = {
     "C11": ([_RD, _RK], R_DIDV[-4:] + R_DIDK[3:5]),
     "C03": ([_RD, _RK], R_DIDV[3:5] + R_DIDV[6:7] + R_DIDK),
     "C07": ([_RB], R_BURN),
+    "C08": ([_RP, _RPQ, _RPG], R_PNFTG + [f"{_RP}.getAllDenoms_run"]),
     "C04": ([_RK], R_DIDK[2:]),
     "C05": ([_RK], R_DIDK[3:]),
 }
